@@ -75,9 +75,18 @@ def coq_prepare():
 
 def coq_make(targets, timeout=3000):
     """Full .vo build of the given targets (paths relative to coq/, .vo). Returns (ok, log)."""
+    # The Makefile is regenerated under a global lock; the build itself only under a per-target lock
+    # (different properties build disjoint files apart from small shared bases), so one slow proof
+    # file cannot stall every other check.
     with Lock("coq"):
         coq_prepare()
-        rc, out = sh("make -j%d %s" % (NCPU, " ".join(targets)), cwd=COQ, timeout=timeout)
+    key = hashlib.sha1(" ".join(sorted(targets)).encode()).hexdigest()[:8]
+    with Lock("coq-" + key):
+        rc, out = sh("make -j%d %s" % (8, " ".join(targets)), cwd=COQ, timeout=timeout)
+        if rc != 0 and "inconsistent assumptions" in out:
+            # two concurrent builds raced on a shared dependency: rebuild once, serialised
+            with Lock("coq"):
+                rc, out = sh("make -j%d %s" % (8, " ".join(targets)), cwd=COQ, timeout=timeout)
     return rc == 0, out
 
 FORBIDDEN = re.compile(r"\b(Admitted|admit|Axiom|Axioms|Parameter|Parameters|Conjecture|Conjectures|Abort All)\b|Unset\s+Guard|bypass_check|Admit\s+Obligations|Unset\s+Positivity|Unset\s+Universe\s+Checking|type-in-type|impredicative-set")
